@@ -2,6 +2,7 @@
 mod c01;
 mod c02;
 mod c04;
+mod c05;
 mod c08;
 mod c09;
 mod c10;
@@ -70,6 +71,13 @@ fn props() -> Vec<Prop> {
         thorough_cases: 600,
         gen: c04::gen_case,
         run: c04::run_case,
+    }, Prop {
+        id: "C05",
+        rule: "grammars: hand-written corpus (a^n b^n, nested/sequenced parentheses, left-recursive expressions, S->SS|a|eps, mutual recursion, unit cycles, nullable chains, hidden left recursion, palindromes), three parametric grammars (expanded by parameter reachability), random grammars over ? * + {m,n} groups and references with unconfusable terminals; for each the engine is walked over every byte string up to max_len over the grammar alphabet plus a junk byte, and the accepting flag of every reachable prefix and the allowed/refused status of every next byte are compared with the proved Lean spec (cfg q); multi-byte tokens of a synthetic vocabulary are compared the same way at sampled prefixes; distinct non-trivial = distinct grammars walked",
+        quick_cases: 22,
+        thorough_cases: 120,
+        gen: c05::gen_case,
+        run: c05::run_case,
     }, Prop {
         id: "C08",
         rule: "int-grid: every integer pair in a window (exhaustive) through rx_int_range vs the Lean model's printed pattern, a sub-sample through the whole engine; int-random: bounds around powers of ten up to 10^18 with inclusive/exclusive/missing bounds; dec-random: decimal bounds with up to three fractional digits; dec-near: both bounds from a small lattice (equal integer parts, integer-valued and zero bounds, shared fraction prefixes, all inclusive/exclusive combinations); mult-random: multipleOf combined with bounds; for each schema every literal of a grid in and around the bounds (0-4 fractional digits, trailing zeros, shorter forms) is accepted iff its exact value satisfies the keywords; distinct non-trivial = distinct schemas that compiled",
@@ -310,9 +318,12 @@ fn main() {
     match mb.run() {
         Ok(mm) => {
             for m in mm.iter().take(10) {
+                // queries to a proved *specification* decider (S4 chart recogniser): a disagreement is
+                // a concrete input on which the implementation departs from the property
+                let is_spec = m.request.starts_with("cfg q ");
                 rep.fail(
-                    "model",
-                    &format!("{}:model-mismatch", p.id.to_lowercase()),
+                    if is_spec { "spec" } else { "model" },
+                    &format!("{}:{}", p.id.to_lowercase(), if is_spec { "spec-mismatch" } else { "model-mismatch" }),
                     format!("{}request `{}`: implementation `{}`, Lean model `{}`", first_diff(&m.request, &m.expected, &m.got), trunc(&m.request), trunc(&m.expected), trunc(&m.got)),
                     json!({"case": cases[m.tag], "request": m.request, "impl": m.expected, "model": m.got}),
                 );
